@@ -30,8 +30,8 @@ const (
 func init() {
 	register(Property{ID: "C17", Level: "other", Run: runC17,
 		Technique: "static analysis: SSA path conditions (must-pass / must-precede / must-follow), whole-module who-calls tables, sibling agreement of AddReader/RemoveReader, lock-state dataflow with caller summaries (guarded-by)",
-		Text: "Decides on all paths: (1) Reader.push pushes the callback exactly once, tests the ring buffer's result and counts a discard exactly on the false branch; no other module code pushes to a ring buffer or increments the discard counter; (2) writeUnitInner's fan-out is a single synchronous push per entry of streamFormat.onDatas, on the reader that is the map key, of a closure that invokes exactly the callback that is the map value with the unit being written, and every successful return passes the fan-out; (3) AddReader registers under (media, format) exactly the callback r.onDatas holds for that pair and RemoveReader deletes the same map entries, deletes the reader and then calls stop on every path; stop closes the buffer and waits for the run goroutine, which is the only invoker of pulled callbacks (synchronously, in pull order); start/run/runInner/stop/push have the frozen caller sets; (4) WriteUnit forwards only while the sub stream is the stream's current one and publisher formats are paired with stream formats by position; (5) streamFormat.onDatas and Stream.readers are accessed only with Stream.mutex held (write lock for mutation), Stream.subStream is written only under the write lock. (6) 'unmodified after remuxing': the one *unit.Unit that writeUnitInner hands to every reader is not written through by any reader callback - every module function outside internal/stream with a *unit.Unit parameter performs no store / copy / clear / in-place library call / module-callee write on memory reachable from it (unit fields, payload bytes, RTP packets; value-flow closure through locals, captured variables, type assertions, slicing, module helpers to depth 4) - and internal/stream itself does not write through the unit after the fan-out. Not decided: FIFO behaviour of the ring buffer library, at-most-once under interleavings beyond the lock discipline, mutation of a payload by third-party encoders/muxers it is passed to or through aliases stored in freshly built containers.",
-		Note: "trusted: gortsplib ringbuffer (FIFO, Push reports false only when full or closed, Pull reports false after Close), sync.RWMutex; no alias analysis: one Stream per streamFormat tree is assumed"})
+		Text:      "Decides on all paths: (1) Reader.push pushes the callback exactly once, tests the ring buffer's result and counts a discard exactly on the false branch; no other module code pushes to a ring buffer or increments the discard counter; (2) writeUnitInner's fan-out is a single synchronous push per entry of streamFormat.onDatas, on the reader that is the map key, of a closure that invokes exactly the callback that is the map value with the unit being written, and every successful return passes the fan-out; (3) AddReader registers under (media, format) exactly the callback r.onDatas holds for that pair and RemoveReader deletes the same map entries, deletes the reader and then calls stop on every path; stop closes the buffer and waits for the run goroutine, which is the only invoker of pulled callbacks (synchronously, in pull order); start/run/runInner/stop/push have the frozen caller sets; (4) WriteUnit forwards only while the sub stream is the stream's current one and publisher formats are paired with stream formats by position; (5) streamFormat.onDatas and Stream.readers are accessed only with Stream.mutex held (write lock for mutation), Stream.subStream is written only under the write lock. (6) 'unmodified after remuxing': the one *unit.Unit that writeUnitInner hands to every reader is not written through by any reader callback - every module function outside internal/stream with a *unit.Unit parameter performs no store / copy / clear / in-place library call / module-callee write on memory reachable from it (unit fields, payload bytes, RTP packets; value-flow closure through locals, captured variables, type assertions, slicing, module helpers to depth 4) - and internal/stream itself does not write through the unit after the fan-out. Not decided: FIFO behaviour of the ring buffer library, at-most-once under interleavings beyond the lock discipline, mutation of a payload by third-party encoders/muxers it is passed to or through aliases stored in freshly built containers.",
+		Note:      "trusted: gortsplib ringbuffer (FIFO, Push reports false only when full or closed, Pull reports false after Close), sync.RWMutex; no alias analysis: one Stream per streamFormat tree is assumed"})
 	addMutants(
 		Mutant{"C17", "drop-not-counted", "internal/stream/reader.go",
 			"	ok := r.buffer.Push(cb)\n	if !ok {\n		r.outboundFramesDiscarded.Increase()\n	}", "	r.buffer.Push(cb)", "C17.push"},
